@@ -168,7 +168,10 @@ def gen_trace(recipe):
   idxp = np.asarray(P) + off
   idxx = np.arange(nq) + off
   for nm, conv in (('indices_int64', lambda a: a.astype(np.int64)), ('indices_int32', lambda a: a.astype(np.int32)),
-                   ('indices_list', lambda a: a.tolist())):
+                   ('indices_list', lambda a: a.tolist()),
+                   # the index array in any memory layout: Fortran-ordered, or the transposed view np.array([left, right]).T
+                   ('indices_fortran', lambda a: np.asfortranarray(a.astype(np.int64))),
+                   ('indices_transposed_view', lambda a: (np.ascontiguousarray(a.T.astype(np.int64)).T if a.ndim == 2 else a.astype(np.int64)))):
     ev['reprs'].append({'name': nm + '_' + recipe['prep'], 'pd': obs.dyv(est.pair_distance(conv(idxp))),
                         'transform': obs.dym(est.transform(conv(idxx)))})
   ev['qkind'] = recipe['qkind']
